@@ -80,6 +80,8 @@ func scenario(p params, bounds []int) *vexp.Scenario {
 						// ... and a Once job that has already fired when the actor dies (its key sorts before the Loop's)
 						ctx.Scheduler().Once(ctx.Ref(), time.Millisecond, vsys.Msg{ID: "once"}, vivid.WithSchedulerReference("A"))
 						ctx.Scheduler().Loop(ctx.Ref(), time.Second, vsys.Msg{ID: "loop"}, vivid.WithSchedulerReference("Z"))
+						// ... and a reference registered a second time while its first job is live (refused or ignored: the first job stands)
+						ctx.Scheduler().Loop(ctx.Ref(), time.Second, vsys.Msg{ID: "loop"}, vivid.WithSchedulerReference("L"))
 					}
 				}
 				if p.respawn == "onkill-spawn" && n == p.target {
@@ -142,6 +144,13 @@ func scenario(p params, bounds []int) *vexp.Scenario {
 			case "early":
 				addWatcher("w1", onWatchMsg)
 				expectNotices["/w1"] = [2]int{1, 1}
+				if p.target == "/x" {
+					// watchers whose own path merely BEGINS with the target's path (they are not its descendants) and one nested elsewhere
+					for _, n := range []string{"x0", "x-2"} {
+						addWatcher(n, onWatchMsg)
+						expectNotices["/"+n] = [2]int{1, 1}
+					}
+				}
 			case "twice":
 				addWatcher("w1", onWatchMsg)
 				expectNotices["/w1"] = [2]int{1, 1}
@@ -155,7 +164,9 @@ func scenario(p params, bounds []int) *vexp.Scenario {
 			vrt.QuiesceNoTimers()
 			switch p.watch {
 			case "early":
-				w.Sys.Tell(w.Ref("/w1"), vsys.Msg{ID: "watch"})
+				for wp := range expectNotices {
+					w.Sys.Tell(w.Ref(wp), vsys.Msg{ID: "watch"})
+				}
 			case "twice":
 				w.Sys.Tell(w.Ref("/w1"), vsys.Msg{ID: "watch"})
 				w.Sys.Tell(w.Ref("/w1"), vsys.Msg{ID: "watch"})
